@@ -720,3 +720,48 @@ def rule_axis_guards_independent(ctx, funcs=("GRwriteimage", "GRreadimage")):
         ast_walk(f.raw["ast"], vis)
     ctx.floor("AXISGUARD", 3, n, "(per-axis tests in GRwriteimage/GRreadimage)")
     return n
+
+
+def rule_image_record_fill_flag(ctx):
+    """FILLFLAG (C09): whether GRwriteimage lays down fill values around a partial write is gated by two facts: the image has no data
+    yet, and its record carries `fill_img`.  An image that is stored the new way (an RI Vgroup — its record gets `ri_ref` from
+    that group's reference, not the DFREF_WILDCARD of RIG/RI8 imports, which always come with data) can exist without data in
+    any session, so every place that builds such a record — GRcreate and the loader GRIget_image_list — must set the flag.
+    Built without it, the first partial write of a later session fails (seek past the end of the empty element) or leaves the
+    rest of the image zero."""
+    from .codec import ast_walk
+    from .facts import kind, strip, walk, render, mem_field, is_int, int_name
+    prog = ctx.prog
+    n = 0
+    for f in prog.lib_funcs():
+        if not f.rel.endswith("hdf/src/mfgr.c") or not f.raw.get("ast"):
+            continue
+        blocks = []
+        ast_walk(f.raw["ast"], lambda nd, st: (blocks.append(nd) if nd[0] == "block" else None, True)[1])
+        k = 0
+        for b in blocks:
+            builds = None
+            flag = False
+            for kid in b[1]:
+                if kid[0] != "s":
+                    continue
+                for x in walk(kid[1], True):
+                    if x[0] == "asg" and x[1] == "=" and mem_field(x[2]) == ("ri_info", "ri_ref") and int_name(x[3]) != "DFREF_WILDCARD" and not is_int(x[3]):
+                        builds = kid
+                    if x[0] == "asg" and x[1] == "=" and mem_field(x[2]) == ("ri_info", "fill_img"):
+                        flag = True
+            if builds is None:
+                continue
+            # only records under construction: the same block also gives the record its attribute tree
+            if not any(kid[0] == "s" and any(x[0] == "asg" and (mem_field(x[2]) or (0, 0))[1] in ("lattree", "lattr_count") for x in walk(kid[1], True)) for kid in b[1]):
+                continue
+            k += 1
+            n += 1
+            key = "FILLFLAG:%s#%d" % (f.name, k)
+            line = builds[-3] if isinstance(builds[-3], int) else f.line
+            if flag:
+                ctx.holds("FILLFLAG", key, f.where(line), "the record of a new-style image is built with `fill_img` set", nontrivial=True)
+            else:
+                ctx.violated("FILLFLAG", key, f.where(line), "%s builds the record of a new-style image without setting `fill_img`: if the image has no data yet, its first partial write is not filled" % f.name)
+    ctx.floor("FILLFLAG", 2, n, "(places that build the record of a new-style image)")
+    return n
